@@ -19,6 +19,11 @@ type Effect struct {
 var Log []Effect
 var Hook func(e Effect) // called before the effect is applied (crash point)
 
+// Fault, if set, is asked before every mutating file operation and may make it fail: a
+// write then stores only the first half of its data (a short write on a full disk) and
+// returns the error; any other operation fails without having happened.
+var Fault func(e Effect) error
+
 // Logging switches the effect log on (off by default: executions are many).
 var Logging bool
 
@@ -64,7 +69,13 @@ func wrap(f *orig.File, err error, op, name string, flag int) (*File, error) {
 
 func OpenFile(name string, flag int, perm orig.FileMode) (*File, error) {
 	if flag&(orig.O_CREATE|orig.O_TRUNC|orig.O_WRONLY|orig.O_RDWR|orig.O_APPEND) != 0 {
-		rec(Effect{Op: fmt.Sprintf("open(%#x)", flag), Path: name})
+		e := Effect{Op: fmt.Sprintf("open(%#x)", flag), Path: name}
+		if Fault != nil {
+			if err := Fault(e); err != nil {
+				return nil, &orig.PathError{Op: "open", Path: name, Err: err}
+			}
+		}
+		rec(e)
 	}
 	f, err := orig.OpenFile(name, flag, perm)
 	return wrap(f, err, "open", name, flag)
@@ -91,6 +102,14 @@ func Pipe() (*File, *File, error) {
 }
 
 func (f *File) Write(p []byte) (int, error) {
+	if Fault != nil {
+		if err := Fault(Effect{Op: "write", Path: f.path, Data: p}); err != nil {
+			half := p[:len(p)/2]
+			rec(Effect{Op: "write", Path: f.path, Data: append([]byte(nil), half...)})
+			n, _ := f.File.Write(half)
+			return n, &orig.PathError{Op: "write", Path: f.path, Err: err}
+		}
+	}
 	rec(Effect{Op: "write", Path: f.path, Data: append([]byte(nil), p...)})
 	return f.File.Write(p)
 }
@@ -99,7 +118,15 @@ func (f *File) WriteAt(p []byte, off int64) (int, error) {
 	rec(Effect{Op: "writeat", Path: f.path, Off: off, Data: append([]byte(nil), p...)})
 	return f.File.WriteAt(p, off)
 }
-func (f *File) Sync() error  { rec(Effect{Op: "fsync", Path: f.path}); return f.File.Sync() }
+func (f *File) Sync() error {
+	if Fault != nil {
+		if err := Fault(Effect{Op: "fsync", Path: f.path}); err != nil {
+			return &orig.PathError{Op: "sync", Path: f.path, Err: err}
+		}
+	}
+	rec(Effect{Op: "fsync", Path: f.path})
+	return f.File.Sync()
+}
 func (f *File) Close() error {
 	rec(Effect{Op: "close", Path: f.path})
 	delete(openFiles, f)
@@ -110,7 +137,15 @@ func (f *File) Truncate(n int64) error {
 	return f.File.Truncate(n)
 }
 
-func Rename(a, b string) error  { rec(Effect{Op: "rename", Path: a, To: b}); return orig.Rename(a, b) }
+func Rename(a, b string) error {
+	if Fault != nil {
+		if err := Fault(Effect{Op: "rename", Path: a, To: b}); err != nil {
+			return &orig.LinkError{Op: "rename", Old: a, New: b, Err: err}
+		}
+	}
+	rec(Effect{Op: "rename", Path: a, To: b})
+	return orig.Rename(a, b)
+}
 func Remove(a string) error     { rec(Effect{Op: "remove", Path: a}); return orig.Remove(a) }
 func RemoveAll(a string) error  { rec(Effect{Op: "removeall", Path: a}); return orig.RemoveAll(a) }
 func Link(a, b string) error    { rec(Effect{Op: "link", Path: a, To: b}); return orig.Link(a, b) }
